@@ -1,9 +1,13 @@
 import Holpy.Kernel.Wire
 import Holpy.Kernel.Oracle
+import Holpy.C01.GenAxioms
 /-
 Line protocol of the kernel model (C01; also used by C03):
   (rule NAME ARG (THM*))                      -> (ok THM) | (err KIND)        one checker step
+  (ruleax NAME ARGX (THM*))                   -> (ok THM) | (err KIND)        one checker step over logic_base:
+       ARGX = (name THEOREM-NAME) | ARG; rule `theorem` copies a stored theorem (GenAxioms: axioms ++ proved theorems)
   (cex THM SPEC BUDGET SEED MAXCOST)          -> (valid N T|F) | (cex ((kind name Ty val)*)) | (skip WHY)
+  (cexstd THM SPEC BUDGET SEED MAXCOST)       -> the same, over standard valuations of the base logic only
        SPEC = (((name size)*) ((name size)*) ((name size)*) default)   sizes of stvars / tvars / type constructors
   (aeq T1 T2) -> T|F            (gettype T) / (checktype T) -> (ok Ty) | (err KIND)
   (substtype ((n Ty)*) T) (incr K T) (substbound ABS T) (betaconv T) (betanorm FUEL T)
@@ -31,8 +35,33 @@ def okTy : Except TErr Ty → String
   | .ok t => toString (Sexp.list [.atom "ok", tyTo t])
   | .error e => toString (Sexp.list [.atom "err", .atom (terrTo e)])
 
+/-- every theorem `logic_base` installs: what `get_theorem` can return -/
+def theoryTheorems : List (String × Thm) :=
+  Holpy.C01.Gen.baseAxioms ++ Holpy.C01.Gen.provedTheorems
+
+def argAxOf : Sexp → Option ArgAx
+  | .list [.atom "name", .atom n] => some (.name n)
+  | s => (argOf s).map .prim
+
+def verdictTo : Oracle.Verdict → String
+  | .valid n ex => toString (Sexp.list [.atom "valid", Sexp.ofNat n, Sexp.ofBool ex])
+  | .cex asg => toString (Sexp.list [.atom "cex", .list (asg.map fun (a, v) =>
+      .list [Sexp.ofNat a.1, .atom a.2.1, tyTo a.2.2, Sexp.ofNat v])])
+  | .skip w => toString (Sexp.list [.atom "skip", .atom (w.replace " " "_")])
+
 def handle (line : String) : String :=
   match Sexp.parse line with
+  | some (.list [.atom "ruleax", .atom name, arg, .list prems]) =>
+    match argAxOf arg, prems.mapM thmOf with
+    | some a, some ps =>
+      match checkStepAx theoryTheorems name a ps with
+      | .ok th => toString (Sexp.list [.atom "ok", thmTo th])
+      | .error e => toString (Sexp.list [.atom "err", .atom (rerrTo e)])
+    | _, _ => "bad-op"
+  | some (.list [.atom "cexstd", th, spec, budget, seed, maxCost]) =>
+    match thmOf th, specOf spec, budget.toNat?, seed.toNat?, maxCost.toNat? with
+    | some t, some s, some b, some sd, some mc => verdictTo (Oracle.searchStd s.toModel t b sd mc)
+    | _, _, _, _, _ => "bad-op"
   | some (.list [.atom "rule", .atom name, arg, .list prems]) =>
     match argOf arg, prems.mapM thmOf with
     | some a, some ps =>
